@@ -119,9 +119,15 @@ def one(ctx, rng, xr):
     Ein = da.values.astype("float64").reshape(npos, nf, len(th))
     f64 = da.freq.values.astype("float64")
     f32 = da.freq.values.astype("float32").astype("float64")   # the peak ufuncs document float32 freq
+    permuted = bool(rng.random() < 0.3)
+    if permuted:
+        # the same labelled spectra held in another dimension order (records after freq, dir first, ...), stored that way
+        od_ = [str(d_) for d_ in rng.permutation(list(da.dims))]
+        da = da.transpose(*od_)
+        da = da.copy(data=np.ascontiguousarray(da.values))
     acc = da.to_dataset(name="efth").spec if rng.random() < 0.5 else da.spec
     f32data = edt == "float32"
-    base = "nf=%d|fam=%s|nd=%d|e=%s|f=%s|lead=%d" % (nf, fm["family"], len(th), edt, fdt, len(names))
+    base = "nf=%d|fam=%s|nd=%d|e=%s|f=%s|lead=%d%s" % (nf, fm["family"], len(th), edt, fdt, len(names), "|dims-permuted" if permuted else "")
 
     obs = {}
 
